@@ -3039,22 +3039,18 @@ class Env(cabc.MutableMapping):
         )
 
     def __iter__(self):
-        # Compute the set of keys masked by DELETE_VAR. An overlay layer
-        # may mask either an underlying overlay or `_d`/defaults; `_d`
-        # itself may also hold the sentinel (set via swap thread-local).
-        masked = set()
-        for overlay in reversed(self._overlay_stack):
-            for k, v in overlay.items():
-                if v is DELETE_VAR and k not in masked:
-                    masked.add(k)
-        for key in self.rawkeys():
+        # Iteration must agree with ``in`` / ``[]``: a key supplied only by an
+        # overlay is part of the environment, and whether a key is masked by
+        # DELETE_VAR is decided by the top-most layer that mentions it (an
+        # overlay value above a mask makes the key visible again).
+        keys = set(self.rawkeys())
+        for overlay in self._overlay_stack:
+            keys.update(overlay)
+        for key in keys:
             if not isinstance(key, str):
                 continue
-            if key in masked:
-                continue
-            if key in self._d and self._d[key] is DELETE_VAR:
-                continue
-            yield key
+            if key in self:
+                yield key
 
     def __contains__(self, item):
         for overlay in reversed(self._overlay_stack):
